@@ -14,7 +14,8 @@ EXPLANATION = (
     "through `!may_have_internal_overlap(..)` - every definition of the deciding flag is `false` or the negated call; "
     "(overflow) is_contiguous / may_have_internal_overlap contain no wrapping multiplication or addition on shapes and "
     "strides; (criterion) the scan is over dimensions sorted by stride, skips size-1 dims, returns true as soon as "
-    "stride <= accumulated extent, and the extent is accumulated (each update depends on its previous value). That the "
+    "stride <= accumulated extent, the extent is accumulated (each update depends on its previous value), and false is "
+    "returned only for an empty layout, under is_contiguous, or after the scan completed. That the "
     "sorted-stride criterion itself is sufficient for injectivity is a mathematical lemma and is not decided here.")
 ASSUMPTIONS = ["the sorted-stride criterion (each stride > sum of extents of smaller-stride dims) implies injectivity"]
 MHO = 'rten_tensor::overlap::may_have_internal_overlap'
